@@ -29,13 +29,16 @@ int muggle_sowr_memory_pool_init(muggle_sowr_memory_pool_t *pool, muggle_sync_t 
 		return MUGGLE_ERR_INVALID_PARAM;
 	}
 
-	muggle_sync_t block_size = 
-		(muggle_sync_t)sizeof(muggle_sowr_block_head_t) + data_size;
-	block_size = MUGGLE_ALIGN_TRUE_SHARING(block_size);
-	if (block_size <= 0)
+	// computed in 64 bits: block offsets are products of two muggle_sync_t, so
+	// a data area that does not fit muggle_sync_t is refused instead of wrapping
+	uint64_t block_size64 =
+		(uint64_t)sizeof(muggle_sowr_block_head_t) + data_size;
+	block_size64 = MUGGLE_ALIGN_TRUE_SHARING(block_size64);
+	if (block_size64 > (uint64_t)UINT32_MAX / capacity)
 	{
 		return MUGGLE_ERR_INVALID_PARAM;
 	}
+	muggle_sync_t block_size = (muggle_sync_t)block_size64;
 
 	pool->capacity = capacity;
 	pool->block_size = block_size;
